@@ -180,13 +180,17 @@ def strip_point(v):
     return None, None
 
 
-def input_bytes_ok(b):
+def input_bytes_ok(b, pc=()):
     """the 32 bytes that are decoded must be the entry point's own input, unmodified"""
     x = b
     if x.op == "index" and x.args[1].op == "struct" and x.args[1].args[0] in ("core::ops::Range", "core::ops::RangeTo"):
         d = dict(zip(x.args[1].args[1], x.args[1].args[2:]))
         if Tm.is_lit(d.get("end")) and d["end"].args[0] == 32 and (d.get("start") is None or d["start"] is lit(0)):
-            x = x.args[0]
+            # the first 32 bytes ARE the input only where the input is known to be 32 bytes long
+            whole = x.args[0]
+            if not any(c is Tm.eq(mk("len", whole), lit(32)) or c is Tm.eq(lit(32), mk("len", whole)) for c in pc):
+                return False
+            x = whole
     if x.op == "field" and x.args[1] == "0":
         x = x.args[0]
     if x.op == "read_bytes":
@@ -227,17 +231,33 @@ def funnel(rep, cfg):
                 continue
             n_ok += 1
             if kind == "encoding":
-                if not input_bytes_ok(d):
+                if not input_bytes_ok(d, pc):
                     problems.append("Encoding built from something else than the input bytes: %s" % Tm.show(d, maxdepth=5))
                 continue
             b = d.args[0]
-            if not input_bytes_ok(b):
-                problems.append("decodes bytes that are not the unmodified input: %s" % Tm.show(b, maxdepth=5))
+            if not input_bytes_ok(b, pc):
+                problems.append("decodes bytes that are not the unmodified, whole input (a prefix is the input only under len == 32): %s" % Tm.show(b, maxdepth=5))
             if not any(c is mk("decode_ok", b) for c in pc):
                 problems.append("hands out decoded(%s) on a path that does not require decode success" % Tm.show(b, maxdepth=3))
             for c in pc:
                 if not allowed_guard(c):
                     problems.append("success gated by a condition outside the allowed set: %s" % Tm.show(c, maxdepth=5))
+        # taking a fixed prefix / sub-slice of the input panics on shorter inputs unless the length was checked first
+        for epc, kind_, eargs, site in out.effects:
+            if kind_ != "index" or len(eargs) < 2 or not isinstance(eargs[1], Tm.T) or eargs[1].op != "struct" or not str(eargs[1].args[0]).startswith("core::ops::Range"):
+                continue
+            base = eargs[0]
+            y = base
+            while isinstance(y, Tm.T) and y.op == "field":
+                y = y.args[0]
+            if not (isinstance(y, Tm.T) and y.op == "param") or cfg.prog.bodies[p]["params"][0].get("ty", "").replace(" ", "").find("[u8]") < 0:
+                continue
+            d_ = dict(zip(eargs[1].args[1], eargs[1].args[2:]))
+            hi = d_.get("end")
+            if hi is not None and Tm.is_lit(hi):
+                guarded = any(c_.op == "eq" and mk("len", base) in c_.args and any(Tm.is_lit(a_) and a_.args[0] >= hi.args[0] for a_ in c_.args) for c_ in epc)
+                if not guarded:
+                    problems.append("input[..%d] is taken without a preceding length check: panics on shorter inputs, silently truncates longer ones (%s)" % (hi.args[0], site.get("sp")))
         if n_ok == 0:
             problems.append("no success flow")
         rep.ob(key, not problems, "entry point must reduce to decode(input bytes) with only the allowed extra guards; " +
@@ -259,9 +279,16 @@ def Tm_strip(s):
 
 
 def is_len_guard(c):
+    """len(<the input itself>) ==/!= 32  (the length of a prefix or sub-slice of the input is not a length check of the input)"""
     x = c.args[0] if c.op == "not" else c
-    if x.op in ("eq", "ne") and any(Tm.is_lit(a) and a.args[0] == 32 for a in x.args) and any(isinstance(a, Tm.T) and a.op == "len" for a in x.args):
-        return True
+    if x.op in ("eq", "ne") and any(Tm.is_lit(a) and a.args[0] == 32 for a in x.args):
+        for a in x.args:
+            if isinstance(a, Tm.T) and a.op == "len":
+                y = a.args[0]
+                while y.op == "field":
+                    y = y.args[0]
+                if y.op in ("param", "read_bytes"):
+                    return True
     return False
 
 
